@@ -4,9 +4,9 @@ import (
 	"fmt"
 	"go/ast"
 	"go/token"
+	"go/types"
 	"path/filepath"
 	"sort"
-	"go/types"
 	"strings"
 
 	"golang.org/x/tools/go/ssa"
